@@ -64,7 +64,9 @@ def _get_laplace_matrix(bcs: BoundariesList) -> tuple[NumericArray, NumericArray
 
         if i == 0:
             if r_min == 0:
-                matrix[i, i + 1] = factor_l[i]
+                # the virtual point at the origin does not contribute since its
+                # coefficient `factor_l[0]` vanishes
+                pass
             else:
                 const, entries = bcs[0].get_sparse_matrix_data((-1,))
                 vector[i] += const * factor_l[i]
